@@ -106,14 +106,14 @@ func setupSet(r *aerig.Rig, bs []backend) error {
 		if resp := r.Do("api", "POST", "/api/backends", nil, body, admin, 10*time.Second); resp.Err != nil || resp.Status != 200 {
 			return fmt.Errorf("cannot register backend: %v %d", resp.Err, resp.Status)
 		}
-		keepAlive(r, b)
+		if !keepAlive(r, b) {
+			return fmt.Errorf("the proxy did not record the poll of backend %s", b.id[:2])
+		}
 	}
 	return nil
 }
 
-func keepAlive(r *aerig.Rig, b backend) {
-	r.Do("agent", "GET", "/agent/pending", agentHeaders(b, ""), nil, aerig.Identity{OAuthEmail: b.agent}, 100*time.Millisecond)
-}
+func keepAlive(r *aerig.Rig, b backend) bool { return r.KeepAlive(b.id, b.agent) }
 
 // ------------------------------------------------------------ relay
 
@@ -599,6 +599,11 @@ func genFault(t *rapid.T) FaultCase {
 	c.Ops = rapid.SliceOfNDistinct(rapid.SampledFrom(faultOps), 1, 4, func(s string) string { return s }).Draw(t, "ops")
 	c.RespSize = rapid.SampledFrom([]int{200, 200, 1000001, 2000001}).Draw(t, "respSize")
 	c.ReqSize = rapid.SampledFrom([]int{64, 64, 1000100}).Draw(t, "reqSize")
+	if rapid.IntRange(0, 4).Draw(t, "doubleFault") == 0 {
+		// two of the writes that posting a response performs (concurrently) fail at the same time
+		c.Phase = "respond"
+		c.Ops = rapid.SliceOfNDistinct(rapid.SampledFrom([]string{"resp-put", "completed-put", "mem-set", "part-put"}), 2, 3, func(s string) string { return s }).Draw(t, "respondOps")
+	}
 	return c
 }
 
